@@ -189,7 +189,7 @@ def ApplicationDefined.dec (b : Bytes) : Out ApplicationDefined := do
   let h ← Header.dec b
   if h.type ≠ TypeApplicationDefined then .err
   else if b.length < 12 then .err
-  else if ((h.length + 1) % 65536) * 4 ≠ b.length then .err
+  else if (h.length + 1) * 4 ≠ b.length then .err
   else do
     let ssrc ← u32At b 4
     let name ← slice b 8 12
